@@ -67,6 +67,13 @@ WrapProgs == {<<Wm(<<Ln(1)>>), Wi>>,
               <<Ln(2), Wm(<<Ln(1)>>), Wi, Ln(2), Wi>>,
               <<[k |-> "macro", n |-> "wrapp", np |-> 1, body |-> <<[k |-> "pstmt", i |-> 1]>>],
                 [k |-> "invoke", n |-> "wrapp", args |-> <<StmtArg(Ln(1))>>]>>}
+\* macros of many parameters, each using one of them: the stored text marks a parameter with its number, which is a
+\* byte like any other of the text (59 is ';', 34 '"', 39 a tick, 47 '/', 10 a line feed, 13, 32, 92 ...)
+WideProgs == {<<[k |-> "macro", n |-> "widem", np |-> np, body |-> <<D(1, <<Par(i)>>), D(1, <<Num(7)>>)>>],
+                [k |-> "invoke", n |-> "widem", args |-> [j \in 1..np |-> Num(j)] \o <<>>]>> :
+                np \in {60, 100}, i \in 1..100} \ {x \in {<<>>} : TRUE}
+WideOk(w) == w[1].body[1].items[1].i <= w[1].np
+EmitWide == (Len(prog) = Len(Prelude)) => PrintT("WIDE " \o ToJson({w \in WideProgs : WideOk(w)}))
 EmitWrap == (Len(prog) = Len(Prelude)) => PrintT("WRAP " \o ToJson({[p |-> w, x |-> Expand(w)] : w \in WrapProgs}))
 Init == prog = Prelude /\ n \in 1..MaxLen
 NextR == Len(prog) < Len(Prelude) + n /\ prog' = Append(prog, RandomElement(Body)) /\ UNCHANGED n
